@@ -3,5 +3,6 @@ CONSTANTS
   NameMask = 4095
   Family = "trace"
   MaxKeys = 0
+  MaxEdits = 1
   Defect = "none"
 CHECK_DEADLOCK FALSE
